@@ -318,11 +318,119 @@ fn deviation(set: &[&J], clause: &str) -> Option<&'static str> {
             !mine.contains(n) && (text.contains(&format!("\"{simple}\"")) || text.contains(&format!(".{simple}\"")))
         })
     });
+    // a namespaced input that refers to a null-namespace type with a leading dot (".B")
+    let dot_ref_in_namespace = set.iter().any(|j| top_name(j).contains('.') && (j.to_string().contains(":\".") || j.to_string().contains("[\".") || j.to_string().contains(",\".")));
     match clause {
+        "values-do-not-travel-between-orderings" if dot_ref_in_namespace => Some("D-C20-null-namespace-reference-inside-a-namespace-is-lost-once-parsed"),
         "unresolvable-or-conflicting-set-accepted" if dup_with_nested => Some("D-C20-definition-nested-in-one-input-duplicating-another-accepted"),
         "resolvable-set-rejected" | "outcome-depends-on-order" | "definition-depends-on-order" if text_refs_nested && !dup_with_nested => Some("D-C20-nested-definition-referenced-from-another-input-depends-on-order"),
         _ => None,
     }
+}
+
+/// "Values encoded with a schema obtained from one ordering decode identically with the corresponding
+/// schema obtained from any other ordering": every value of every input's boundary alphabet is written with
+/// the schemata of one ordering (bytes compared with the independent encoder) and read with another's.
+fn codec_clause(set: &[J], perms: &[Vec<usize>], st: &mut Stats) -> Result<(), String> {
+    use crate::val::{from_lib, to_lib, values, veq};
+    use apache_avro::reader::datum::GenericDatumReader;
+    use apache_avro::writer::datum::GenericDatumWriter;
+    let refs: Vec<&J> = set.iter().collect();
+    let Ok((roots, env)) = crate::ast::refparse_set(&refs) else { return Ok(()) };
+    // the schemata under each ordering, re-indexed by input
+    let mut per_order: Vec<Vec<Schema>> = vec![];
+    for perm in perms.iter().take(2) {
+        let texts: Vec<String> = perm.iter().map(|&i| set[i].to_string()).collect();
+        let parsed = match guarded(|| Schema::parse_list(texts.iter().map(|s| s.as_str()))) {
+            Ok(Ok(p)) => p,
+            _ => return Ok(()), // acceptance is judged above
+        };
+        let mut by_input: Vec<Option<Schema>> = vec![None; set.len()];
+        for (k, &i) in perm.iter().enumerate() {
+            by_input[i] = parsed.get(k).cloned();
+        }
+        per_order.push(by_input.into_iter().map(|s| s.ok_or("missing schema".to_string())).collect::<Result<_, _>>()?);
+    }
+    if per_order.len() < 2 {
+        return Ok(());
+    }
+    // `schemata` lists are resolved in order (documented: references to schemas later in the list are not
+    // supported), so they are handed over definitions-first; a set whose inputs refer to each other in a
+    // cycle has no such order and cannot be used this way at all: no verdict
+    fn names(s: &crate::ast::S, defs: &mut BTreeSet<String>, refs: &mut BTreeSet<String>) {
+        use crate::ast::S;
+        match s {
+            S::Ref(n) => {
+                refs.insert(n.clone());
+            }
+            S::Array(x) | S::Map(x) | S::Logical(_, x) => names(x, defs, refs),
+            S::Union(b) => b.iter().for_each(|x| names(x, defs, refs)),
+            S::Record { full, fields, .. } => {
+                defs.insert(full.clone());
+                fields.iter().for_each(|f| names(&f.ty, defs, refs));
+            }
+            S::Enum { full, .. } | S::Fixed { full, .. } => {
+                defs.insert(full.clone());
+            }
+            _ => {}
+        }
+    }
+    let dr: Vec<(BTreeSet<String>, BTreeSet<String>)> = roots
+        .iter()
+        .map(|r| {
+            let (mut d, mut f) = (BTreeSet::new(), BTreeSet::new());
+            names(r, &mut d, &mut f);
+            (d, f)
+        })
+        .collect();
+    let mut order: Vec<usize> = vec![];
+    let mut defined: BTreeSet<String> = BTreeSet::new();
+    while order.len() < roots.len() {
+        let next = (0..roots.len()).find(|i| !order.contains(i) && dr[*i].1.iter().all(|n| defined.contains(n) || dr[*i].0.contains(n)));
+        match next {
+            Some(i) => {
+                defined.extend(dr[i].0.iter().cloned());
+                order.push(i);
+            }
+            None => {
+                st.outcome("values-clause-skipped(inputs refer to each other in a cycle)");
+                return Ok(());
+            }
+        }
+    }
+    for (i, root) in roots.iter().enumerate() {
+        for v in values(root, &env, 2, 0).iter().take(24) {
+            if v.has_multi_map() {
+                continue;
+            }
+            let lv = to_lib(v, root, &env);
+            for (a, b) in [(0usize, 1usize), (1, 0)] {
+                st.transitions += 2;
+                let r = guarded(|| -> Result<(), String> {
+                    let w = GenericDatumWriter::builder(&per_order[a][i]).schemata(order.iter().map(|&k| &per_order[a][k]).collect()).map_err(|e| format!("writer schemata: {e}"))?.build().map_err(|e| format!("writer: {e}"))?;
+                    let mut bytes = vec![];
+                    w.write_value_ref(&mut bytes, &lv).map_err(|e| format!("input {i}: writing {lv:?} with the schemata of ordering {a} failed: {e}"))?;
+                    let expect = crate::refbin::encode(v, root, &env);
+                    if bytes != expect {
+                        return Err(format!("input {i}: bytes {} differ from the independent encoding {}", ev::hex(&bytes), ev::hex(&expect)));
+                    }
+                    let rd = GenericDatumReader::builder(&per_order[b][i]).writer_schemata(order.iter().map(|&k| &per_order[b][k]).collect()).map_err(|e| format!("reader schemata: {e}"))?.build().map_err(|e| format!("reader: {e}"))?;
+                    let mut cur: &[u8] = &bytes;
+                    let got = rd.read_value(&mut cur).map_err(|e| format!("input {i}: value written under ordering {a} is not readable under ordering {b}: {e}"))?;
+                    if !cur.is_empty() || !from_lib(&got, root, &env).is_ok_and(|g| veq(&g, v)) {
+                        return Err(format!("input {i}: value {lv:?} written under ordering {a} reads as {got:?} under ordering {b}"));
+                    }
+                    Ok(())
+                });
+                match r {
+                    Ok(Ok(())) => {}
+                    Ok(Err(e)) => return Err(e),
+                    Err(p) => return Err(format!("panic: {p}")),
+                }
+            }
+        }
+    }
+    Ok(())
 }
 
 fn check_set(label: &str, set: Vec<J>, perms: Vec<Vec<usize>>, bound: usize, ord: u64, st: &mut Stats) {
@@ -378,6 +486,11 @@ fn check_set(label: &str, set: Vec<J>, perms: Vec<Vec<usize>>, bound: usize, ord
         st.transitions += runs;
     }
     st.states += 1;
+    if expect_ok.is_ok() && problems.is_empty() {
+        if let Err(e) = codec_clause(&set, &perms, st) {
+            problems.push(("values-do-not-travel-between-orderings".into(), e));
+        }
+    }
     if distinct.len() > 1 {
         problems.push(("outcome-depends-on-order".into(), "the same set succeeds under some orderings and fails under others".into()));
     }
